@@ -74,3 +74,58 @@ static GenProg gen_program(std::mt19937 &rng) {
   }
   return g;
 }
+
+
+// ---- enumerated short sequences (hidden state between instructions: flags, fetch buffers, stale operand registers)
+// program number idx of a fixed enumeration: [LDAC a; LDBC b;] I1; I2; [I3;] four LDAC 0 fillers; exit(areg).
+//   idx <  SEQ_PAIRS                : prefix with corner values (a, b), pair (I1, I2)
+//   idx <  SEQ_PAIRS + SEQ_BARE     : no prefix (the registers are as reset left them), triple (I1, I2, I3)
+//   idx <  SEQ_TOTAL                : prefix, triple
+static const int SEQ_NI = 18, SEQ_NC = 8;
+static const long SEQ_PAIRS = (long)SEQ_NC * SEQ_NC * SEQ_NI * SEQ_NI;
+static const long SEQ_BARE = (long)SEQ_NI * SEQ_NI * SEQ_NI;
+static const long SEQ_TOTAL = SEQ_PAIRS + SEQ_BARE + (long)SEQ_NC * SEQ_NC * SEQ_NI * SEQ_NI * SEQ_NI;
+static void seq_instr(std::vector<unsigned char> &t, int k, u32 dataw) {
+  switch (k) {
+    case 0: enc(t, 3, 0); break;                 // LDAC 0
+    case 1: enc(t, 3, 7); break;                 // LDAC 7
+    case 2: enc(t, 3, 0xFFFFFFFFu); break;       // LDAC -1
+    case 3: enc(t, 4, 1); break;                 // LDBC 1
+    case 4: enc(t, 5, 1); break;                 // LDAP 1
+    case 5: enc(t, 5, (u32)-3); break;           // LDAP -3
+    case 6: t.push_back(0xD1); break;            // ADD
+    case 7: t.push_back(0xD2); break;            // SUB
+    case 8: enc(t, 9, 1); break;                 // BR 1
+    case 9: enc(t, 10, 1); break;                // BRZ 1
+    case 10: enc(t, 11, 1); break;               // BRN 1
+    case 11: enc(t, 10, 2); break;               // BRZ 2
+    case 12: enc(t, 11, 2); break;               // BRN 2
+    case 13: enc(t, 0, dataw); break;            // LDAM d
+    case 14: enc(t, 1, dataw + 1); break;        // LDBM d+1
+    case 15: enc(t, 2, dataw); break;            // STAM d
+    case 16: t.push_back(0xE0); break;           // PFIX 0 (a prefix that changes nothing - except in an implementation that mishandles it)
+    default: t.push_back(0xF0 | 15); break;      // NFIX 15: the next operand gets 0xFFFFFFF0 or-ed in
+  }
+}
+static GenProg seq_program(long idx) {
+  static const u32 CV[SEQ_NC] = {0, 1, 0xFFFFFFFFu, 0x7FFFFFFFu, 0x80000000u, 2, 0xFFFFFF00u, 65536};
+  GenProg g;
+  int a = -1, b = -1, i1, i2, i3 = -1;
+  if (idx < SEQ_PAIRS) { i2 = idx % SEQ_NI; idx /= SEQ_NI; i1 = idx % SEQ_NI; idx /= SEQ_NI; b = idx % SEQ_NC; a = idx / SEQ_NC; }
+  else if (idx < SEQ_PAIRS + SEQ_BARE) { idx -= SEQ_PAIRS; i3 = idx % SEQ_NI; idx /= SEQ_NI; i2 = idx % SEQ_NI; i1 = idx / SEQ_NI; }
+  else { idx -= SEQ_PAIRS + SEQ_BARE; i3 = idx % SEQ_NI; idx /= SEQ_NI; i2 = idx % SEQ_NI; idx /= SEQ_NI; i1 = idx % SEQ_NI; idx /= SEQ_NI; b = idx % SEQ_NC; a = idx / SEQ_NC; }
+  const u32 dataw = 40, sp = 60;
+  std::vector<unsigned char> t;
+  t.push_back(0x97); t.push_back(0); t.push_back(0); t.push_back(0);
+  for (int l = 0; l < 4; l++) t.push_back((sp >> (8 * l)) & 0xFF);
+  if (a >= 0) { enc(t, 3, CV[a]); enc(t, 4, CV[b]); }
+  seq_instr(t, i1, dataw); seq_instr(t, i2, dataw);
+  if (i3 >= 0) seq_instr(t, i3, dataw);
+  for (int k = 0; k < 4; k++) t.push_back(0x30 + k);          // LDAC 0..3: which filler a branch lands on is visible in areg
+  enc(t, 1, 1); enc(t, 8, 2); enc(t, 3, 0); t.push_back(0xD3);  // exit(areg)
+  while (t.size() % 4) t.push_back(0);
+  g.img.assign(sp + 8, 0);
+  for (size_t i = 0; i < t.size(); i++) g.img[i / 4] |= (u32)t[i] << (8 * (i % 4));
+  g.img[dataw] = 0x80000000u; g.img[dataw + 1] = 1;
+  return g;
+}
